@@ -1,4 +1,5 @@
 mod ast;
+mod compose;
 mod engines;
 mod harness;
 mod refsylt;
@@ -24,6 +25,9 @@ fn main() {
     if args[0] == "selftest" {
         std::process::exit(pool::on_fresh_thread(1, || selftest::run()));
     }
+    if args[0] == "corpus" {
+        std::process::exit(pool::on_fresh_thread(1, || selftest::corpus()));
+    }
     if args[0] == "replay" {
         let dir = args.get(1).unwrap_or_else(|| usage());
         std::process::exit(replay(dir));
@@ -46,6 +50,18 @@ fn main() {
             "C17" => {
                 run = Run::new("C17", &tier, "model_checking");
                 engines::c17::run(&mut run);
+            }
+            "C03" => {
+                run = Run::new("C03", &tier, "fault_enumeration");
+                engines::faults::run_c03(&mut run);
+            }
+            "C04" => {
+                run = Run::new("C04", &tier, "fault_enumeration");
+                engines::faults::run_c04(&mut run);
+            }
+            "C05" => {
+                run = Run::new("C05", &tier, "fault_enumeration");
+                engines::faults::run_c05(&mut run);
             }
             "C13" => {
                 run = Run::new("C13", &tier, "model_checking");
@@ -76,6 +92,8 @@ fn replay(dir: &str) -> i32 {
     let res = pool::on_fresh_thread(1, || match case["engine"].as_str().unwrap_or("") {
         "c17" => engines::c17::replay(case),
         "c13" => engines::c13::replay(case),
+        "faults" => engines::faults::replay(case),
+        "faults-files" => engines::faults::replay_files(case),
         other => {
             eprintln!("MACHINERY: unknown engine {}", other);
             std::process::exit(2);
